@@ -157,6 +157,31 @@ def run(rep, tier, seed):
         rep.count('family_name_ending_in_operator')
         reqs.append((4, [enc_table(T), 0, 0, 0, enc_str(text)]))
         metas.append((T, Lt, text, tree))
+    # diverging continuations: two long names share the prefix "A op B" and continue differently; a text that follows
+    # the prefix and then spells the known name "B C" is the valid expression "A op (B C)"
+    wp2 = ['apache', '2.0', 'mit', 'gpl', 'zlib', 'png', 'bsd', 'cc', 'by', 'x11']
+    for _ in range(fam):
+        a, b, c, x, y, z = rng.sample(wp2, 6)
+        op = rng.choice(['or', 'and'])
+        nname = ' '.join([b, c] + ([y] if rng.random() < 0.3 else []))
+        long1 = ' '.join([a, op, b, x])
+        long2 = ' '.join([a, op] + nname.split() + [z, x])
+        T = [('k-one', [long1], False), ('k-two', [long2], False), (nname.upper(), [], False), (a.upper(), [], False)]
+        if rng.random() < 0.3:
+            T = [T[1], T[0]] + T[2:]
+        if not gen.table_ok(T):
+            continue
+        try:
+            Lt = make_licensing(T)
+        except ValueError:
+            continue
+        text = gen.vary_name(rng, ' '.join([a, op, nname]))
+        if ''.join(ch.lower() for ch in text) != text.lower():
+            continue
+        tree = [1 if op == 'and' else 2, [[0, [0, [enc_str(a.upper()), 0]]], [0, [0, [enc_str(nname.upper()), 0]]]]]
+        rep.count('family_diverging_continuations')
+        reqs.append((4, [enc_table(T), 0, 0, 0, enc_str(text)]))
+        metas.append((T, Lt, text, tree))
     res = run_model(reqs)
     for (T, Lt, text, tree), r in zip(metas, res):
         got = parsing.parse_outcome(Lt, text)
